@@ -79,3 +79,21 @@ package reorgdetector
 //@   trusted
 //@   modifies nothing
 //@   sqltext "SELECT * FROM tracked_block ORDER BY subscriber_id;"
+
+// ---- subscribing (C06): the tracked blocks are the durable record of what a syncer has processed on a fork that may be
+// abandoned; at start-up they are reloaded (Start -> loadTrackedHeaders, which also re-creates the subscriptions) before
+// the syncers subscribe again. Subscribing under an id that already has a subscription must therefore hand back that
+// subscription and leave the id's tracked-block list alone; only a new id starts with a new, empty list.
+//@ func newHeadersList
+//@   props C06
+//@   modifies nothing
+//@   ensures[a-new-list] result != nil && fresh(result) && result.headers != nil && fresh(result.headers)
+//@   ensures[empty-when-given-nothing] len(headers) == 0 ==> forall(n, int, !has(result.headers, n))
+//@   loop 0 invariant headersMap != nil && fresh(headersMap) && (len(headers) == 0 ==> forall(n, int, !has(headersMap, n)))
+//@ func (rd *ReorgDetector) Subscribe
+//@   props C06
+//@   requires rd != nil && rd.subscriptions != nil && rd.trackedBlocks != nil
+//@   modifies heap
+//@   ensures[an-existing-subscriber-keeps-its-subscription-and-its-tracked-blocks] old(has(rd.subscriptions, id)) ==> result1 == nil && result0 == old(rd.subscriptions[id]) && has(rd.trackedBlocks, id) == old(has(rd.trackedBlocks, id)) && rd.trackedBlocks[id] == old(rd.trackedBlocks[id])
+//@   ensures[a-new-subscriber-is-registered-with-a-list-of-its-own] !old(has(rd.subscriptions, id)) ==> result1 == nil && result0 != nil && has(rd.subscriptions, id) && rd.subscriptions[id] == result0 && has(rd.trackedBlocks, id) && rd.trackedBlocks[id] != nil && fresh(rd.trackedBlocks[id])
+//@   ensures[the-maps-stay-the-detectors] rd.subscriptions == old(rd.subscriptions) && rd.trackedBlocks == old(rd.trackedBlocks)
